@@ -19,6 +19,7 @@ type ScriptOpts struct {
 	AllowLate   bool              // records at or below the last watermark allowed
 	EqualWM     bool              // repeated equal watermark allowed
 	Rows        [][]octosql.Value // if set: the record rows (Keys/Payloads ignored)
+	ZeroAfterWM bool              // allow a zero-event-time record after a watermark on the same input (default: treated as late)
 }
 
 func keyVal(k int) octosql.Value {
@@ -74,6 +75,9 @@ func GenScripts(o ScriptOpts) [][]Ev {
 				if t != 0 && t <= s.wm && !o.AllowLate {
 					continue
 				}
+				if t == 0 && s.wm > 0 && !o.ZeroAfterWM && !o.AllowLate {
+					continue
+				}
 				var rows [][]octosql.Value
 				if len(o.Rows) > 0 {
 					rows = o.Rows
@@ -102,6 +106,9 @@ func GenScripts(o ScriptOpts) [][]Ev {
 						continue
 					}
 					if t == 0 && !ins.T.IsZero() {
+						continue
+					}
+					if t == 0 && s.wm > 0 && !o.ZeroAfterWM && !o.AllowLate {
 						continue
 					}
 					n := s
